@@ -20,7 +20,7 @@ static const char *STAT_NAMES[ST_N] = { "runs", "sets", "save_crash_restart_load
        "probe.untouched_application_saved", "probe.savefile_with_3_or_more_lines", "probe.negative_value_saved", "probe.float_saved", "probe.toggle_saved", "probe.string_with_special_characters_saved", "probe.array_saved", "probe.non_default_preset_saved",
        "probe.subtree_parameter_saved", "probe.pointer_subtree_parameter_saved", "probe.disabled_subtree_pruned", "probe.option_saved", "probe.all_permutations_enumerated", "probe.permutations_sampled", "probe.file_with_dependency_between_lines", "probe.torn_file_accepted_partially" };
 
-enum { OP_SET = 0, OP_CYCLE };
+enum { OP_SET = 0, OP_CYCLE, OP_FILL };
 enum { FL_NONE = 0, FL_LOST, FL_TORN, FL_FLIP, FL_HEADER, FL_APP, FL_GARBAGE, FL_UNKNOWN, FL_N };
 
 struct Inst { const AppDesc *d; void *obj; Inst(const AppDesc &dd) : d(&dd), obj(dd.make()) {} ~Inst() { d->destroy(obj); } Inst(const Inst &) = delete; };
@@ -49,6 +49,7 @@ struct SaveWorld : World {
         "C13 runs additionally load every permutation of the message lines (all for <= 6 lines, 200 seeded beyond) and of the file with each depended-on line deleted. evaluations = loads performed. Non-trivial = a savefile with at least one message line was loaded; distinct = distinct hash of the op sequence."; }
     std::string describe(const Op &op) const override {
         char b[200];
+        if (op.kind == OP_FILL) { snprintf(b, sizeof b, "fill(#%lld,from=%lld,start=%lld,step=%lld)", (long long)op.a[0], (long long)op.a[1], (long long)op.a[2], (long long)op.a[3]); return b; }
         if (op.kind == OP_SET) { snprintf(b, sizeof b, "set(#%lld[%lld],%lld%s%s)", (long long)op.a[0], (long long)op.a[1], (long long)op.a[2], op.s.empty() ? "" : ",", op.s.c_str()); return b; }
         static const char *f[] = {"none", "lost_write", "torn", "flip", "foreign_header", "other_app", "garbage_line", "unknown_port"};
         snprintf(b, sizeof b, "save|crash|restart|load(fault=%s,%lld,%lld)", f[((op.a[0] % FL_N) + FL_N) % FL_N], (long long)op.a[1], (long long)op.a[2]); return b;
@@ -64,6 +65,9 @@ struct SaveWorld : World {
         int n = 1 + (int)pr.below(prop == "C13" ? 14 : 24); bool faults = prop == "C12" && pr.chance(0.5);
         for (int i = 0; i < n; i++) {
             Op o;
+            if (pr.chance(0.1)) { // fill an array with a constant run or an arithmetic sequence (the printer compresses those into ranges)
+                std::vector<int> arrs; for (size_t q = 0; q < P.size(); q++) if (P[q].elems >= 3 && (P[q].type == 'i' || P[q].type == 'f')) arrs.push_back((int)q);
+                if (!arrs.empty()) { o.kind = OP_FILL; o.a[0] = arrs[pr.below(arrs.size())]; o.a[1] = pr.below(4); o.a[2] = (int64_t)pr.below(9) - 4; o.a[3] = (int64_t)pr.below(5) - 2; p.push_back(o); continue; } }
             if (pr.chance(0.8)) { o.kind = OP_SET; int pi = (int)pr.below(P.size()); const Param &pp = P[pi]; o.a[0] = pi; o.a[1] = pr.below(pp.elems);
                 switch (pp.type) {
                 case 'i': case 'c': { double s = pr.unit(); double lo = std::max(pp.lo, -2147483648.0), hi = std::min(pp.hi, 2147483647.0);
@@ -108,6 +112,9 @@ struct SaveWorld : World {
         for (auto &op : plan) {
             opi++; shape = mix64(shape, op.kind * 8191 + (uint64_t)op.a[0] * 131 + (uint64_t)op.a[1] + hash_str(op.s));
             if (op.kind == OP_SET) { stat_add(ST_SETS); std::vector<Val> before = snapshot(*cur); do_set(*cur, op); if (!(before == snapshot(*cur))) touched = true; continue; }
+            if (op.kind == OP_FILL) { const Param &pp = P[(size_t)(((op.a[0] % (int64_t)P.size()) + P.size()) % P.size())]; if (pp.elems < 2 || (pp.type != 'i' && pp.type != 'f')) continue; std::vector<Val> before = snapshot(*cur);
+                for (int q = (int)(((op.a[1] % pp.elems) + pp.elems) % pp.elems); q < pp.elems; q++) { Op s1; s1.kind = OP_SET; s1.a[0] = op.a[0]; s1.a[1] = q; int64_t v = op.a[2] + op.a[3] * q; if (pp.type == 'f') { float f = (float)v / 2.0f; if (f == 0) f = 0; uint32_t u; memcpy(&u, &f, 4); s1.a[2] = u; } else s1.a[2] = v; do_set(*cur, s1); stat_add(ST_SETS); }
+                if (!(before == snapshot(*cur))) touched = true; continue; }
             // ---------------- save | crash | restart | load ----------------
             stat_add(ST_CYCLES); stat_add(F_CRASH);
             int fl = c13 ? FL_NONE : (int)(((op.a[0] % FL_N) + FL_N) % FL_N);
